@@ -37,6 +37,51 @@ def _pals_for(rng, fs, extra_cells, broadcast=()):
     return pals
 
 
+# Concrete column names (a name palette): the abstract names a, b, c, r, x, y are also run as names that contain one
+# another ("id" in "listing_id"), are not identifiers ("hood id", "2nd", "x y"), are not ASCII, or clash with methods.
+NAME_MAPS = [None,
+             {"a": "id", "b": "listing_id", "c": "hood id", "r": "r", "x": "d", "y": "2nd"},
+             {"a": "items", "b": "sort", "c": "x y", "r": "r", "x": "keys", "y": "\u00fc"}]
+
+
+def _name_map_for(a, fs):
+    import zlib
+    return NAME_MAPS[zlib.crc32(json.dumps([a, fs], sort_keys=True, default=str).encode()) % len(NAME_MAPS)]
+
+
+def _map_frame(fr, m):
+    return {"cols": [m.get(c, c) for c in fr["cols"]], "cell": {m.get(c, c): v for c, v in fr["cell"].items()}}
+
+
+def _map_arg(a, m):
+    b = dict(a)
+    if "names" in b:
+        b["names"] = [m.get(c, c) for c in b["names"]]
+    if "pairs" in b:
+        b["pairs"] = [[m.get(to, to), m.get(fm, fm)] for to, fm in b["pairs"]]
+    if "name" in b:
+        b["name"] = m.get(b["name"], b["name"])
+    for gk in ("g", "g2"):
+        if gk in b:
+            b[gk] = _map_frame(b[gk], m)
+    return b
+
+
+def named(fn, a, fs, pals, *rest):
+    """Runs fn on the same case under the concrete column names chosen for it; the record stays abstract."""
+    m = _name_map_for(a, fs)
+    if not m:
+        return fn(a, fs, pals, *rest)
+    inv = {v: k for k, v in m.items()}
+    rest = tuple(({m.get(c, c): p for c, p in r.items()} if isinstance(r, dict) else r) for r in rest)
+    rec = fn(_map_arg(a, m), [_map_frame(f, m) for f in fs], {m.get(c, c): p for c, p in pals.items()}, *rest)
+    rec["a"] = {k: v for k, v in a.items() if k not in ("g", "g2", "form", "shape")}
+    rec["fs"] = fs
+    rec["out"] = _map_frame(rec["out"], inv)
+    rec["names"] = m
+    return rec
+
+
 def _build(f, pals, alt=None):
     import dataiter as di
     cols = {}
@@ -135,7 +180,7 @@ def _run_single(ctx):
     records, meta, count = [], [], {}
 
     def add(a, fs, pals, variant=0):
-        rec = execute(a, fs, pals, variant)
+        rec = named(execute, a, fs, pals, variant)
         records.append(rec)
         meta.append((pals, variant, a))
         count[a["op"]] = count.get(a["op"], 0) + 1
@@ -179,9 +224,7 @@ def _run_single(ctx):
                 pals = {k: v for k, v in pals.items() if not k.startswith("_new_")}
                 obs_pals = dict(pals)
                 obs_pals.update(newp)
-                rec = execute(a, fs, pals)
-                # re-observe with the renamed palettes (execute observed with the old ones)
-                rec = _execute_renamed(a, fs, pals, obs_pals)
+                rec = named(_execute_renamed, a, fs, pals, obs_pals)
                 records.append(rec)
                 meta.append((pals, 0, a))
                 count[a["op"]] = count.get(a["op"], 0) + 1
@@ -253,9 +296,9 @@ def replay(ctx, rp):
                 obs.update({to: pals[fm] for to, fm in a["pairs"]})
             else:
                 obs.update({to: pals[fs[0]["cols"][i]] for i, to in enumerate(a["names"])})
-            rec = _execute_renamed(a, fs, pals, obs)
+            rec = named(_execute_renamed, a, fs, pals, obs)
         else:
-            rec = execute(a, fs, pals, case.get("variant", 0))
+            rec = named(execute, a, fs, pals, case.get("variant", 0))
         bad = ctx.validate("CombineOpsTrace", [rec])
         for _, clause in bad:
             ctx.fail(clause, sig_of(rec, pals), {"rec": rec, "a": a, "palettes": case["palettes"]})
